@@ -47,6 +47,20 @@ def wait(deferred):
     return deferred
 
 
+class Progress:
+    # Counts the events after which a value that could not be computed before
+    # may have become computable: a promise is settled, a deferred value gets
+    # known, a symbol is defined, a file is completed. An early attempt that
+    # failed need not be repeated until the count moves on; without that, n
+    # statements whose size depends on their address (say, '.even') take 2**n
+    # steps while the link base is not known.
+    epoch = 0
+
+    @classmethod
+    def made(cls):
+        cls.epoch += 1
+
+
 class TryCompute:
     depth = 0
 
@@ -195,6 +209,7 @@ class Deferred(BaseDeferred):
         self.fn = fn
         self.value = None
         self.settled = False
+        self.not_ready_at = None
         self.name = name or f"d{Deferred.next_instance_id}"
         Deferred.next_instance_id += 1
 
@@ -225,8 +240,16 @@ class Deferred(BaseDeferred):
         if self.settled:
             return self.value
         else:
-            self.value = self.fn()
+            if try_compute.depth > 0 and self.not_ready_at == Progress.epoch:
+                # Nothing has been learnt since this was last tried in vain
+                raise NotReadyError()
+            try:
+                self.value = self.fn()
+            except NotReadyError:
+                self.not_ready_at = Progress.epoch
+                raise
             self.settled = True
+            Progress.made()
             return self.value
 
     def get_current_best_estimate(self):
@@ -458,6 +481,7 @@ class Promise(BaseDeferred):
         assert not self.settled
         self.value = value
         self.settled = True
+        Progress.made()
 
     def __repr__(self):
         return self.name
